@@ -43,6 +43,9 @@ type Node struct {
 	confirmed map[chainhash.Hash]int32
 	txByID    map[chainhash.Hash]*wire.MsgTx // every tx ever seen
 	nonce     uint32
+	// Stale holds the tips of branches that were once best and were reorged
+	// away (invalidateblock / reconsiderblock scenarios return to them).
+	Stale []*Block
 	// Announce receives node events (new best-chain block, mempool entry) in
 	// order; clients subscribe by appending.
 	subs []*Client
@@ -427,6 +430,9 @@ func (n *Node) Reorg(depth int, blocks []MineOpts) (disconnected []*Block, conne
 		depth = len(n.Best) - 1
 	}
 	var back []*wire.MsgTx
+	if depth > 0 {
+		n.Stale = append(n.Stale, n.Tip())
+	}
 	for i := 0; i < depth; i++ {
 		b := n.disconnectTip()
 		disconnected = append(disconnected, b)
@@ -522,4 +528,70 @@ func (n *Node) Known(id chainhash.Hash) bool {
 		return true
 	}
 	return n.inPool[id]
+}
+
+// SwitchBack makes a formerly best branch (n.Stale[i]) the best chain again,
+// as `invalidateblock` on the current branch followed by `reconsiderblock`
+// does: the current branch is disconnected down to the fork point and the old
+// blocks — the very same blocks, same hashes — are connected and announced
+// again. If the old branch is shorter than the current one it is extended by
+// `extend` fresh blocks first... (the caller mines them afterwards); a client
+// modelled on bitcoind ignores a branch that is lower than its best block.
+// Returns the number of blocks disconnected and reconnected.
+func (n *Node) SwitchBack(i int) (int, int) {
+	if len(n.Stale) == 0 {
+		return 0, 0
+	}
+	tip := n.Stale[((i%len(n.Stale))+len(n.Stale))%len(n.Stale)]
+	// branch from the fork point to tip
+	var branch []*Block
+	x := tip
+	for !n.OnBest(x) {
+		branch = append([]*Block{x}, branch...)
+		x = n.blocks[x.Msg.Header.PrevBlock]
+		if x == nil {
+			return 0, 0
+		}
+	}
+	if len(branch) == 0 {
+		return 0, 0
+	}
+	depth := len(n.Best) - 1 - int(x.Height)
+	if depth > 0 {
+		n.Stale = append(n.Stale, n.Tip())
+	}
+	var back []*wire.MsgTx
+	for k := 0; k < depth; k++ {
+		b := n.disconnectTip()
+		var txs []*wire.MsgTx
+		for _, tx := range b.Msg.Transactions {
+			if !isCoinbase(tx) {
+				txs = append(txs, tx)
+			}
+		}
+		back = append(txs, back...)
+	}
+	for _, tx := range back {
+		if n.CheckAccept(tx) == nil {
+			n.addPool(tx)
+			for _, c := range n.subs {
+				c.pending = append(c.pending, nodeEvent{tx: tx})
+			}
+		}
+	}
+	n.pruneOrphans()
+	for _, b := range branch {
+		n.connect(b)
+		n.announce(b)
+	}
+	n.pruneOrphans()
+	// the branch is best again: no longer stale
+	var keep []*Block
+	for _, s := range n.Stale {
+		if !n.OnBest(s) {
+			keep = append(keep, s)
+		}
+	}
+	n.Stale = keep
+	return depth, len(branch)
 }
